@@ -108,6 +108,77 @@ def typing_part(ck, pool):
         ck.fail("C15:typing:%s" % desc[i], "%s: the frontend says %s, Generics.tla says otherwise" % (desc[i], recs[i].get("accepted", recs[i].get("same"))), dict(event=recs[i], source=src))
 
 
+CACHE_CFG = """SPECIFICATION Spec
+CONSTANTS
+  TraceFile = "trace.ndjson"
+INVARIANTS Report
+POSTCONDITION Accepted
+CHECK_DEADLOCK FALSE
+"""
+
+
+def cache_part(ck, tier, rng, sources):
+    """the cache of instantiations (hook H4) while the real frontend parses the generic programs, the repository's generic tests and
+    mutants of both in which instantiations fail (ill-typed arguments, undeclared names, names of another kind): GenericsCacheTrace"""
+    import feinputs
+    inputs = []
+    for bi, (b, S, vs) in enumerate(sources):
+        d = dict(vs)
+        inputs.append(("G%d" % bi, {"main.ddp": d["G"].encode()}, "main.ddp"))
+        inputs.append(("Glib%d" % bi, {k: v.encode() for k, v in d["Glib"].items()}, "main.ddp"))
+    for name, files, main in feinputs.seed_programs():
+        if "generic" in name or "generics" in name:
+            inputs.append((name, files, main))
+    seeds = list(inputs)
+    toks = feinputs.tokenize([f[m] for _, f, m in seeds])
+    nmut = 40 if tier == "quick" else 400
+    for (name, files, main), tk in zip(seeds, toks):
+        try:
+            text = files[main].decode("utf-8")
+        except UnicodeDecodeError:
+            continue
+        muts = [m for m in feinputs.token_mutants(text, tk, rng) if m[0].split(":")[0] in ("lit", "subst", "del", "transplant")]
+        for kind, mt in rng.sample(muts, min(nmut, len(muts))):
+            nf = dict(files)
+            nf[main] = mt.encode("utf-8")
+            inputs.append(("%s:%s" % (name, kind), nf, main))
+    pool = FEPool(12, timeout=30)
+    answers = pool.run([dict(files=f, main=m, trace=True) for _, f, m in inputs])
+    recs, owner = [], []
+    nfail = 0
+    for (name, files, main), a in zip(inputs, answers):
+        if not a.get("runs"):
+            continue          # crashes and time-outs are C03's subject
+        ev = a["runs"][0].get("inst") or []
+        if not ev:
+            continue
+        owner.append((len(recs), name, files, main))
+        recs.append(dict(e="reset"))
+        for x in ev:
+            recs.append(dict(e="inst", kind=x["kind"], fn=x["fn"], mod=x["mod"], key=x["key"], nerr=x["nerr"], cache=x["cache"] or []))
+            nfail += 1 if x["kind"] == "done" and x["nerr"] > 0 else 0
+    if not recs:
+        raise Infra("no instantiation event was recorded: hook H4 missing?")
+    res, st = validate_monitor("GenericsCacheTrace", "t.cfg", ["types"], recs, procs=8, sets=("bad",), extra_files={"t.cfg": CACHE_CFG})
+    ck.cov["states"] += st["distinct"]; ck.cov["transitions"] += st["generated"]
+    ck.cov["tlc_runs"].append(dict(name="GenericsCacheTrace", lines=st["lines"], wall_s=round(st["wall"], 1)))
+    ck.cov["cache_steps_validated"] = sum(1 for r in recs if r["e"] == "inst")
+    ck.cov["cache_parses"] = len(owner)
+    ck.cov["failed_instantiations_observed"] = nfail
+    ck.cov["traces_validated_against_impl"] += len(owner)
+    starts = [o[0] for o in owner]
+    seen = set()
+    for i in res["bad"]:
+        j = bisect.bisect_right(starts, i) - 1
+        _, name, files, main = owner[j]
+        if name in seen:
+            continue
+        seen.add(name)
+        ev = recs[i]
+        ck.fail("C15:cache:%s:%s" % (ev["kind"], name.split(":")[0]), "instantiation cache: step %s of %s (errors %d) is not a step of GenericsCache or leaves another list than the model: %s (input %s)" % (
+            ev["kind"], ev["key"], ev["nerr"], ev["cache"], name), dict(input=name, main=main, event=ev, files={k: v.decode("utf-8", "replace") for k, v in files.items()}))
+
+
 def strip_alias(x):
     """type aliases are transparent: the specification sees the aliased type"""
     if isinstance(x, dict):
@@ -177,6 +248,7 @@ def run(tier):
             ev["cfg"], b[ci].key, semrun._around(etext, ci), ev["code"], semrun._around(otext, ci)),
             dict(case=b[ci].key, cfg=ev["cfg"], expected=etext, observed=otext, source=dict(vs)[variant]))
     typing_part(ck, FEPool(2))
+    cache_part(ck, tier, rng, sources)
     ck.sample(dict(case=cases[0].key, variants=["S (specialised)", "G (generic)", "Slib / Glib (functions in an imported module)"]))
     ck.cov["rule"] = "11 generic templates (identity, list access, construction, Referenz swap, loops, recursion, for-each with early return, writing a by-value list parameter, generics calling generics, Standardwert of T) x 7 argument types; each case in 4 program variants x the tier's -O levels; plus all argument-type tuples over 7 types for 5 generic signatures and 625 pairs of generic-Kombination instantiations"
     return ck.finish(exhaustive=False)
